@@ -552,6 +552,13 @@ func (se *specEnv) call(e *Spec) sval {
 			specFail("old() not available here")
 		}
 		return se.with(se.old).evalKeep(e.Args[0])
+	case "iter":
+		// value of an expression at the start of the current loop iteration (only in loop hints / invariants
+		// evaluated at a back edge)
+		if fr.curLoopIter == nil {
+			specFail("iter() is only available at the back edge of a loop")
+		}
+		return se.with(fr.curLoopIter).evalKeep(e.Args[0])
 	case "entry":
 		// value of an expression when the enclosing loop was entered (only inside loop invariants)
 		if fr.curLoopEntry == nil {
@@ -673,6 +680,14 @@ func (se *specEnv) call(e *Spec) sval {
 	case "store":
 		a, i, v := arg(0), arg(1), arg(2)
 		return sval{t: app("store", a.t, i.t, v.t), sort: a.sort}
+	case "constarray":
+		// constarray(v): the array that is v everywhere (initial value of a ghost map)
+		v := arg(0)
+		so := v.sort
+		if so == "" {
+			so = "Int"
+		}
+		return sval{t: constArray(so, v.t), sort: "(Array Int " + so + ")"}
 	case "folded":
 		// folded(P(args)): only the folded form (uninterpreted atom over arguments and footprint versions) of a
 		// predicate instance, without its expansion. Weaker than P(args) when assumed, provable only from an
@@ -861,7 +876,7 @@ func specUsesOld(e *Spec) bool {
 	if e == nil {
 		return false
 	}
-	if e.Op == "call" && (e.Name == "old" || e.Name == "entry" || e.Name == "unchanged") {
+	if e.Op == "call" && (e.Name == "old" || e.Name == "entry" || e.Name == "iter" || e.Name == "unchanged") {
 		return true
 	}
 	if e.Op == "call" && pureDefs != nil {
